@@ -35,6 +35,13 @@ func runC02(ctx *Ctx) {
 			case mh == 100:
 				cfg.MapBurst = 140 // maps around the 127/128 entry mark (rare: large)
 				cfg.MaxRecords = 3
+			case mh < 130:
+				// string keys of one map share a prefix and differ in one rune
+				cfg.MapBurst = 10
+				cfg.StrCluster = rapid.SampledFrom([]string{"", "k", "denom/", "denom/ibc/", "0123456789abcdef", "é世界😀/é世界😀/"}).Draw(rt, "keyprefix")
+				if cfg.StrCluster == "" {
+					cfg.StrCluster = "\x00"
+				}
 			}
 			b := cfg.GenStream(rt, t.Desc, 0)
 			if _, err := decodeD(t, b); err != nil {
